@@ -3,6 +3,7 @@
 //        c01_replay stale <num_detectors_per_ring> <view_mashing after the first look-up>
 //        c01_replay rings  <num_rings> <span> <max_delta>
 //        c01_replay ringsn <scanner name> <span> <max_delta (-1: all)>   the same on a predefined scanner (its own ring spacing)
+//        c01_replay setters <num_rings> <span> <max_delta>   histories of ring-difference / axial-range setters after the tables were built
 //        c01_replay tof    <tof_mash_factor>
 //        c01_replay allpairs <num_detectors_per_ring> <view_mashing> <tof_mash_factor (0: non-TOF scanner)>
 // exit 0: property holds on everything enumerated; exit 1 + "CONFIRMED ..." line: violated; other: driver problem
@@ -158,6 +159,77 @@ static int rings(int R, int span, int max_delta, const char* scanner_name = 0)
   return 0;
 }
 
+// consistency of the ring-pair lists with the object's CURRENT ring-difference ranges (no reference to how the object got there)
+static int check_rings_current(const ProjDataInfoCylindricalNoArcCorr& pdi, int R, const char* label)
+{
+  std::map<std::pair<int, int>, std::vector<std::pair<int, int>>> lists;
+  for (int s = pdi.get_min_segment_num(); s <= pdi.get_max_segment_num(); ++s)
+    for (int a = pdi.get_min_axial_pos_num(s); a <= pdi.get_max_axial_pos_num(s); ++a)
+      {
+        const ProjDataInfoCylindrical::RingNumPairs& rp = pdi.get_all_ring_pairs_for_segment_axial_pos_num(s, a);
+        if (rp.size() != pdi.get_num_ring_pairs_for_segment_axial_pos_num(s, a))
+          { std::printf("CONFIRMED %s: (segment %d, axial %d) reports count %u but lists %u pairs\n", label, s, a, pdi.get_num_ring_pairs_for_segment_axial_pos_num(s, a), (unsigned)rp.size()); return 1; }
+        for (auto& p : rp)
+          {
+            const int rd = p.second - p.first;
+            if (rd < pdi.get_min_ring_difference(s) || rd > pdi.get_max_ring_difference(s))
+              { std::printf("CONFIRMED %s: bin (segment %d, axial %d) lists ring pair (%d,%d) with ring difference %d outside the segment's current range [%d,%d]\n",
+                            label, s, a, p.first, p.second, rd, pdi.get_min_ring_difference(s), pdi.get_max_ring_difference(s)); return 1; }
+            lists[std::make_pair(s, a)].push_back(p);
+          }
+      }
+  for (int r1 = 0; r1 < R; ++r1)
+    for (int r2 = 0; r2 < R; ++r2)
+      {
+        bool covered = false;
+        for (int s = pdi.get_min_segment_num(); s <= pdi.get_max_segment_num(); ++s)
+          covered = covered || (r2 - r1 >= pdi.get_min_ring_difference(s) && r2 - r1 <= pdi.get_max_ring_difference(s));
+        int s = -999, a = -999;
+        const bool ok = pdi.get_segment_axial_pos_num_for_ring_pair(s, a, r1, r2) == Succeeded::yes;
+        int n_in = 0, n_own = 0;
+        for (auto& kv : lists)
+          for (auto& p : kv.second)
+            if (p.first == r1 && p.second == r2) { ++n_in; if (ok && kv.first == std::make_pair(s, a)) ++n_own; }
+        if (covered && (!ok || n_in != 1 || n_own != 1))
+          { std::printf("CONFIRMED %s: ring pair (%d,%d) assigned to (segment %d, axial %d)%s, listed %d times in total and %d times there\n", label, r1, r2, s, a, ok ? "" : " [not found]", n_in, n_own); return 1; }
+        if (!covered && n_in != 0)
+          { std::printf("CONFIRMED %s: ring pair (%d,%d) with a ring difference in no segment's current range is listed %d times\n", label, r1, r2, n_in); return 1; }
+      }
+  return 0;
+}
+
+// histories of setters on an object whose tables were already built: shrink the ring-difference range of the outermost segments,
+// setting both ends (one of them to the value it already has) in either order; then all queries must agree with the current ranges
+static int setters(int R, int span, int max_delta)
+{
+  for (int order = 0; order < 2; ++order)
+    {
+      shared_ptr<Scanner> scanner(new Scanner(Scanner::E953));
+      scanner->set_num_rings(R);
+      auto pdi = make(scanner, span, max_delta, 8, 9);
+      if (!pdi) return 3;
+      int dummy_s, dummy_a;
+      pdi->get_segment_axial_pos_num_for_ring_pair(dummy_s, dummy_a, 0, 0); // builds the tables
+      for (int sign = 1; sign >= -1; sign -= 2)
+        {
+          const int s = sign > 0 ? pdi->get_max_segment_num() : pdi->get_min_segment_num();
+          if (s == 0) continue;
+          const int lo = pdi->get_min_ring_difference(s), hi = pdi->get_max_ring_difference(s);
+          if (lo == hi) continue;
+          // drop the outermost ring difference of the segment
+          const int nlo = s < 0 ? lo + 1 : lo, nhi = s < 0 ? hi : hi - 1;
+          if (order & 1) { pdi->set_max_ring_difference(nhi, s); pdi->set_min_ring_difference(nlo, s); }
+          else { pdi->set_min_ring_difference(nlo, s); pdi->set_max_ring_difference(nhi, s); }
+        }
+      char label[300];
+      std::snprintf(label, sizeof label, "rings=%d span=%d max_delta=%d, tables built, then set_%s_ring_difference + set_%s_ring_difference on the outermost segments (largest ring difference dropped, other end set to the value it has)",
+                    R, span, max_delta, (order & 1) ? "max" : "min", (order & 1) ? "min" : "max");
+      if (const int rc = check_rings_current(*pdi, R, label)) return rc;
+    }
+  std::printf("REPLAY ok\n");
+  return 0;
+}
+
 static int tof(int f)
 {
   shared_ptr<Scanner> scanner(new Scanner(Scanner::PETMR_Signa));
@@ -234,6 +306,7 @@ int main(int argc, char** argv)
       if (argc >= 4 && !strcmp(argv[1], "stale")) return stale(atoi(argv[2]), atoi(argv[3]));
       if (argc >= 5 && !strcmp(argv[1], "rings")) return rings(atoi(argv[2]), atoi(argv[3]), atoi(argv[4]));
       if (argc >= 5 && !strcmp(argv[1], "ringsn")) return rings(0, atoi(argv[3]), atoi(argv[4]), argv[2]);
+      if (argc >= 5 && !strcmp(argv[1], "setters")) return setters(atoi(argv[2]), atoi(argv[3]), atoi(argv[4]));
       if (argc >= 3 && !strcmp(argv[1], "tof")) return tof(atoi(argv[2]));
       if (argc >= 5 && !strcmp(argv[1], "allpairs")) return allpairs(atoi(argv[2]), atoi(argv[3]), atoi(argv[4]));
     }
